@@ -250,7 +250,7 @@ func c20Dispatch(p *Prog, r *Report) {
 	loops := []string{"recvLoop", "sendLoop", "sendRecvLoop", "replyLoop"}
 	reached := map[int64][]string{}
 	for _, lp := range loops {
-		for _, e := range run.Ev("call", "macat.(*App)."+lp) {
+		for _, e := range run.EvOwn("call", "macat.(*App)."+lp) {
 			dnf, _ := PathConds(e.In.Block())
 			for _, v := range vals {
 				env := map[string]int64{self: v}
